@@ -57,6 +57,7 @@ pub fn pool(ty: Ty) -> Vec<V> {
             Value::String(String::new()),
             Value::String("s".into()),
             Value::String("äb".into()),
+            Value::String("a b".into()),
         ],
         Ty::Tuple => vec![
             Value::Tuple(vec![Value::Int(1), Value::Int(2)]),
@@ -314,7 +315,15 @@ impl<'a> Gen<'a> {
     fn lit(&mut self, ty: Ty) -> Expr {
         if ty == Ty::Int {
             // boundary values (0 as a divisor, i64::MAX as an overflow trigger) are kept rare
-            let v = match self.rng.below(20) {
+            let v = match self.rng.below(40) {
+                // neighbours above 2^53 (distinct integers that round to the same f64)
+                20 => Value::Int(i64::MAX - 1),
+                21 => Value::Int(9_007_199_254_740_993),
+                22 => Value::Int(9_007_199_254_740_992),
+                23..=39 => {
+                    let p = pool(Ty::Int);
+                    self.rng.pick(&p[1..5]).clone()
+                },
                 0 => Value::Int(0),
                 1 => Value::Int(i64::MAX),
                 2..=7 => Value::Int(1),
@@ -695,7 +704,8 @@ impl<'a> Gen<'a> {
                 _ => {
                     let t = self.any_ty();
                     let a = self.expr(t, b, d);
-                    self.call_behaviour("k", Some(a), Ty::Tuple)
+                    let f = if self.rng.percent(25) { "r" } else { "k" };
+                    self.call_behaviour(f, Some(a), Ty::Tuple)
                 },
             },
             Ty::Empty => match self.rng.below(4) {
